@@ -12,5 +12,3 @@ GROUPS += [_m15._e("emcy_reset_silent10", "COEmcyReset", 4, _m15._DV, ["a"], tim
            _m15._e("emcy_reset8", "COEmcyReset", 4, _m15._DV, ["a"], timeout=1500, object_bits=12, props=_Q3, defs=["VW_OP=4", "CO_EMCY_N=8"], unwind_all=9, sat="cadical")]
 GROUPS += [_m15._e("emcy_reset_silent16", "COEmcyReset", 4, _m15._DV, ["a"], timeout=1500, object_bits=12, props={"C15": "thorough", "C20": "thorough", "C01": "thorough"}, defs=["VW_OP=4", "CO_EMCY_N=16", "VW_SILENT_ONLY"], unwind_all=17, mem_gb=30,
                    bounded="build configuration CO_EMCY_N=16 errors (silent reset)", sat="cadical")]
-GROUPS += [_m15._e("emcy_reset_silent32", "COEmcyReset", 4, _m15._DV, ["a"], timeout=1500, props={"X94": "quick"}, defs=["VW_OP=4", "CO_EMCY_N=32", "VW_SILENT_ONLY"], unwind_all=33, mem_gb=30, object_bits=14,
-                   bounded="build configuration CO_EMCY_N=32 errors = the default configuration (silent reset)", sat="cadical")]
